@@ -28,10 +28,12 @@ import (
 	"time"
 )
 
-const (
-	verifDir = "/verif"
-	goBin    = "go1.26.8"
-)
+const goBin = "go1.26.8"
+
+// verifDir: the registered checks always run from /verif. A background sweep started from a snapshot of the committed
+// /verif (`vp run`) sets VERIF_DIR to that snapshot so that edits in /verif do not disturb it; like every experiment it
+// must redirect its evidence.
+var verifDir = "/verif"
 
 // repoDir: the registered checks always build from /repo's working tree. Experiments against a deliberately broken copy
 // (tools/seedrun.sh) point VERIF_EXPERIMENT_REPO at a scratch worktree instead, so that /repo is never modified and several
@@ -39,6 +41,13 @@ const (
 var repoDir = "/repo"
 
 func init() {
+	if d := os.Getenv("VERIF_DIR"); d != "" && d != verifDir {
+		if os.Getenv("VERIF_EVIDENCE_DIR") == "" || os.Getenv("VERIF_REPLAY_DIR") == "" {
+			fmt.Fprintln(os.Stderr, "check: VERIF_DIR needs VERIF_EVIDENCE_DIR and VERIF_REPLAY_DIR (registered checks run from /verif)")
+			os.Exit(2)
+		}
+		verifDir = d
+	}
 	if d := os.Getenv("VERIF_EXPERIMENT_REPO"); d != "" {
 		if os.Getenv("VERIF_EVIDENCE_DIR") == "" {
 			fmt.Fprintln(os.Stderr, "check: VERIF_EXPERIMENT_REPO needs VERIF_EVIDENCE_DIR (evidence of experiments never goes to /verif/evidence)")
